@@ -22,6 +22,8 @@ from mc.runner import Result, h64, REPO, VERIF
 
 T1 = {"?": 3, "C": 1, "N": 5, "Si": 2}
 T2 = {"?": 0, "O": 9, "C+1": 2, "Fe+10": 4}
+T1SUB = {"?": 3, "C": 1}                       # T1 with keys dropped, nothing else changed
+T1MOD = {"?": 3, "C": 1, "N": 2, "Si": 2}      # T1 with one value changed
 
 PROBES_D = ["[C][#C]", "[N][=N][#N]", "[Si][=C][Branch1][C][O][F]", "[C][C][C][Ring1][Ring1]", "[N+1][=C][O].[Xe][F]",
             "[CH1][Branch1][C][Cl][#C]", "[S][=O][=O][=O]", "[C+1][#C]", "[O][=O][F]", "[Fe+10][=C][=C]",
@@ -187,6 +189,8 @@ def op_dec(x, **kw):
                         am.attribution.clear()
         except _SF.DecoderError:
             pass
+        except Exception:
+            pass        # an escaping exception is C08's finding; here only its effect on later calls matters
         return None, None
     return Op("decoder(%r%s)" % (x, "".join(",%s=%s" % kv for kv in kw.items())), f, "translate")
 
@@ -202,12 +206,15 @@ def op_enc(s, **kw):
                         am.attribution.clear()
         except _SF.EncoderError:
             pass
+        except Exception:
+            pass
         return None, None
     return Op("encoder(%r%s)" % (s, "".join(",%s=%s" % kv for kv in kw.items())), f, "translate")
 
 
 CONFIG_OPS = [
     op_set("default"), op_set("octet_rule"), op_set("hypervalent"), op_set(T1), op_set(T2),
+    op_set(T1SUB, "T1-with-keys-dropped"), op_set(T1MOD, "T1-with-one-value-changed"),
     op_set({"C": 4}, "missing-?"), op_set({"?": 1, "Xx": 2}, "bad-element"), op_set({"?": 1, "C": -1}, "negative"),
     op_set({"?": 2, "C": 1, "N": 1.5}, "non-integer-after-valid-entries"), op_set("nope", "unknown-preset"),
     op_set(5, "wrong-type"), op_set({"?": 1, "C+0": 1}, "charge-zero-key"),
